@@ -100,7 +100,7 @@ def pcapng_block(btype, body, e="<"):
     return struct.pack(e + "II", btype, total) + _pad4(body) + struct.pack(e + "I", total)
 
 
-def write_pcapng(path, items, *, endian="<", tsresol=6, tsoffset=0, snaplen=0, offset_first=False, pre_idb=(), ifaces=1, late_idb=False, idle_first=None, section_length=False):
+def write_pcapng(path, items, *, endian="<", tsresol=6, tsoffset=0, snaplen=0, offset_first=False, pre_idb=(), ifaces=1, late_idb=False, idle_first=None, section_length=False, packet_blocks=None):
     """items: list of ('pkt', ts_us:int, frame) | ('dsb', text_bytes) | ('raw', btype, body)
     ts_us is integer microseconds since epoch; converted exactly to the chosen resolution when possible."""
     e = endian
@@ -147,6 +147,11 @@ def write_pcapng(path, items, *, endian="<", tsresol=6, tsoffset=0, snaplen=0, o
             sec -= tsoffset
             per_s = (1 << (tsresol & 0x7F)) if tsresol & 0x80 else 10 ** tsresol
             units = int(sec * per_s)
+            if packet_blocks and (npkt - 1) % packet_blocks[0] == packet_blocks[1] % packet_blocks[0]:
+                # the obsolete Packet Block (type 2): 16-bit interface id, 16-bit drops count (0xFFFF = unknown), then as in the EPB
+                body = struct.pack(e + "HHIIII", ifid + shift, packet_blocks[2], units >> 32, units & 0xFFFFFFFF, len(frame), len(frame)) + frame
+                out += pcapng_block(2, body, e)
+                continue
             body = struct.pack(e + "IIIII", ifid + shift, units >> 32, units & 0xFFFFFFFF, len(frame), len(frame)) + frame
             out += pcapng_block(6, body, e)
         elif it[0] == "idb":         # a further interface (no packet refers to it) with time parameters of its own
